@@ -16,5 +16,8 @@ fi
 if ! INSTR_REUSE=1 lib/instr_build.sh harness/c14 "$w/bin-c14" 2> "$w/build3.log"; then
   cat "$w/build3.log" >&2; echo "TOOL-ERROR: instrumented build failed" >&2; exit 2
 fi
+if ! INSTR_REUSE=1 lib/instr_build.sh harness/c02 "$w/bin-c02" 2> "$w/build4.log"; then
+  cat "$w/build4.log" >&2; echo "TOOL-ERROR: instrumented build failed" >&2; exit 2
+fi
 { flock -u 9 && exec 9>&-; } 2>/dev/null  # the build is done: release the shared lock on /repo's working tree (.work/repo.lock)
-VERIF_C17_RACE="$w/bin-race" VERIF_BIN_C14="$w/bin-c14" exec "$w/bin" "$@"
+VERIF_C17_RACE="$w/bin-race" VERIF_BIN_C14="$w/bin-c14" VERIF_BIN_C02="$w/bin-c02" exec "$w/bin" "$@"
